@@ -88,10 +88,12 @@ def _print_Piecewise(
             return printer._print(cond)
 
     try:
-        simplified = sympy.simplify(expr)
+        # Negative literals are kept as unevaluated products (-0.5 is -1*0.5), and
+        # sympy.simplify mishandles relations with those: it raises TypeError for
+        # some of them and turns Ge(x, -1*0.5) into x > -0.5 for others.
+        # Evaluate the numbers before simplifying.
+        simplified = sympy.simplify(expr.doit())
     except TypeError:
-        # sympy cannot always decide relations between unevaluated numbers,
-        # e.g. Lt(x, -0.5) where -0.5 is kept as -1*0.5. Print it as it is
         simplified = expr
     if isinstance(simplified, sympy.Piecewise):
         # simplify may collapse the Piecewise into a plain expression
